@@ -1003,6 +1003,23 @@ static void macro_families(Rng& r)
     arm_check("LOG_DYNAMIC", [&] { LOG_DYNAMIC(l, quill::LogLevel::Warning, "a {} {} {}", i, s, v); });
     arm_check("LOG_BACKTRACE", [&] { LOG_BACKTRACE(l, "a {} {}", i, s); });
     arm_check("LOG_RUNTIME_METADATA", [&] { LOG_RUNTIME_METADATA(l, quill::LogLevel::Info, "file.cpp", 12, "func", "a {} {}", i, s); });
+    // long strings everywhere (beyond any small-string buffer): literals, C strings, std::string, string_view, runtime
+    // file / function names
+    {
+      static char const* const long_file = "/a/rather/long/path/into/a/foreign/library/source_file_name.cpp";
+      static char const* const long_func = "a_function_name_reported_by_a_binding_layer_at_run_time";
+      std::string const long_s(100 + r.below(400), 'L');
+      std::string_view const long_sv{long_s};
+      char const* const long_c = long_s.c_str();
+      arm_check("LOG_RUNTIME_METADATA long names", [&] { LOG_RUNTIME_METADATA(l, quill::LogLevel::Info, long_file, 12345, long_func, "a {} {}", i, long_c); });
+      arm_check("LOG_RUNTIME_METADATA string args", [&] { LOG_RUNTIME_METADATA(l, quill::LogLevel::Error, long_s, 7, long_sv, "b {}", long_s); });
+      arm_check("LOG_INFO long strings", [&] { LOG_INFO(l, "a {} {} {} {}", long_s, long_sv, long_c, i); });
+      arm_check("LOGV_DYNAMIC long strings", [&] { LOGV_DYNAMIC(l, quill::LogLevel::Info, "values", long_s, long_sv, d); });
+      arm_check("LOGJ_DYNAMIC long strings", [&] { LOGJ_DYNAMIC(l, quill::LogLevel::Info, "values", long_s, i); });
+      arm_check("LOG_WARNING_TAGS long strings", [&] { LOG_WARNING_TAGS(l, TAGS("tag_one", "tag_two"), "a {} {}", long_c, long_sv); });
+      arm_check("LOG_BACKTRACE long strings", [&] { LOG_BACKTRACE(l, "a {} {}", long_s, long_c); });
+      arm_check("named-args long strings", [&] { LOG_INFO(l, "a {first} {second:>8}", long_s, i); });
+    }
     arm_check("named-args", [&] { LOG_INFO(l, "a {first} {second}", i, s); });
   }
 }
